@@ -360,6 +360,12 @@ func (db *SpecDB) loadFile(path, pkgPath string) error {
 				fs.Key = strings.TrimPrefix(fs.Key, pkgPath+".")
 				fs.Assumed = true
 			}
+			if err == nil && w == "callback" && fs.Recv != "" {
+				// callback (s *T) Method.param(args): a function-typed parameter of a method
+				if j := strings.LastIndex(fs.Key, "."); j >= 0 {
+					fs.Recv = ""
+				}
+			}
 			if err == nil && w == "callback" {
 				fs.Key += ".call"
 				fs.IsCallback = true
